@@ -210,6 +210,9 @@ func (c *Ctx) typeTestOn(cond ssa.Value, v ssa.Value) (types.Type, bool, bool) {
 
 func runTA(c *Ctx, r *Result, rule string, fns []*ssa.Function, reach *Reach) int {
 	n := 0
+	from := len(r.Obls)
+	fnOf := map[string]*ssa.Function{}
+	defer func() { resolvePending(c, r, from, taExceptions, reach, fnOf, fns, true) }()
 	for _, f := range fns {
 		ord := map[string]int{}
 		for _, ins := range instrsIn(f) {
@@ -255,13 +258,9 @@ func runTA(c *Ctx, r *Result, rule string, fns []*ssa.Function, reach *Reach) in
 			switch {
 			case why != "":
 				o.Verdict, o.Reason = Discharged, why
-			case taExceptions[key] != "":
-				o.Verdict, o.Reason = Exception, "reviewed: "+taExceptions[key]
 			default:
-				o.Verdict, o.Reason = Finding, "type assertion without a comma-ok form and without a dominating test of the dynamic type: it panics when the value is not a "+tname
-				if reach != nil {
-					o.Path = reach.Path(f)
-				}
+				o.Verdict, o.Reason = pendingExc, "type assertion without a comma-ok form and without a dominating test of the dynamic type: it panics when the value is not a "+tname
+				fnOf[shortFn(f)] = f
 			}
 			r.Add(o)
 		}
